@@ -549,3 +549,57 @@ V("C08", "swap-in-out-swapped", L,
   "fires:C08.R6")
 V("C08", "benign-reorder", L,
   ("    used = total - free - cached - buffers", "    used = total - (free + buffers + cached)"), "silent")
+
+# ----------------------------------------------------------------- C09
+V("C09", "nic-name-first-colon", L,
+  ("        colon = line.rfind(':')", "        colon = line.find(':')"), "fires:C09.R1")
+V("C09", "net-errin-dropin-swapped", L,
+  ("            errin,\n            dropin,\n            _fifoin,  # unused", "            dropin,\n            errin,\n            _fifoin,  # unused"),
+  "fires:C09.R1")
+V("C09", "net-tuple-order", L,
+  ("            bytes_sent,\n            bytes_recv,\n            packets_sent,\n            packets_recv,\n            errin,",
+   "            bytes_recv,\n            bytes_sent,\n            packets_sent,\n            packets_recv,\n            errin,"),
+  "fires:C09.R1")
+V("C09", "net-header-not-skipped", L,
+  ("    for line in lines[2:]:\n        colon = line.rfind(':')", "    for line in lines[1:]:\n        colon = line.rfind(':')"),
+  "fires:C09.R1")
+V("C09", "disk-14-wtime-col", L,
+  ("                (reads, reads_merged, rbytes, rtime, writes, writes_merged,\n                    wbytes, wtime, _, busy_time, _) = map(int, fields[3:14])",
+   "                (reads, reads_merged, rbytes, rtime, writes, writes_merged,\n                    wbytes, _, wtime, busy_time, _) = map(int, fields[3:14])"),
+  "fires:C09.R2")
+V("C09", "disk-18-not-accepted", L,
+  ("            elif flen == 14 or flen >= 18:", "            elif flen == 14:"), "fires:C09.R2")
+V("C09", "disk-7-sectors-swapped", L,
+  ("                reads, rbytes, writes, wbytes = map(int, fields[3:])", "                reads, writes, rbytes, wbytes = map(int, fields[3:])"),
+  "fires:C09.R2")
+V("C09", "sector-size-4096", L,
+  ("DISK_SECTOR_SIZE = 512", "DISK_SECTOR_SIZE = 4096"), "fires:C09.R2")
+V("C09", "wbytes-not-scaled", L,
+  ("        wbytes *= DISK_SECTOR_SIZE\n", ""), "fires:C09.R2")
+V("C09", "rtime-scaled", L,
+  ("        rbytes *= DISK_SECTOR_SIZE\n", "        rbytes *= DISK_SECTOR_SIZE\n        rtime *= DISK_SECTOR_SIZE\n"),
+  "fires:C09.R2")
+V("C09", "disk-tuple-order", L,
+  ("        retdict[name] = (reads, writes, rbytes, wbytes, rtime, wtime,\n                         reads_merged, writes_merged, busy_time)",
+   "        retdict[name] = (reads, writes, rbytes, wbytes, rtime, wtime,\n                         writes_merged, reads_merged, busy_time)"),
+  "fires:C09.R2")
+V("C09", "partitions-counted", L,
+  ("        if not perdisk and not is_storage_device(name):", "        if not perdisk and is_storage_device(name):"),
+  "fires:C09.R3")
+V("C09", "partitions-skipped-perdisk", L,
+  ("        if not perdisk and not is_storage_device(name):", "        if not is_storage_device(name):"),
+  "fires:C09.R3")
+V("C09", "empty-raises", I,
+  ("    rawdict = _psplatform.disk_io_counters(**kwargs)\n    if not rawdict:\n        return {} if perdisk else None\n",
+   "    rawdict = _psplatform.disk_io_counters(**kwargs)\n"), "fires:C09.R3")
+V("C09", "usage-used-of-avail", P,
+  ("    avail_to_root = st.f_bfree * st.f_frsize", "    avail_to_root = st.f_bavail * st.f_frsize"),
+  "fires:C09.R4")
+V("C09", "usage-percent-of-total", P,
+  ("    usage_percent_user = usage_percent(used, total_user, round_=1)", "    usage_percent_user = usage_percent(used, total, round_=1)"),
+  "fires:C09.R4")
+V("C09", "usage-bsize", P,
+  ("    total = st.f_blocks * st.f_frsize", "    total = st.f_blocks * st.f_bsize"), "fires:C09.R4")
+V("C09", "benign-listcomp-total", I,
+  ("        return nt(*(sum(x) for x in zip(*rawdict.values())))", "        return nt(*[sum(x) for x in zip(*rawdict.values())])"),
+  "silent")
